@@ -280,12 +280,12 @@ Definition all_witnesses (b : builder) : list witness :=
 
 (* get_used_plutus_lang_versions of one sub-builder: a BTreeSet of the languages of its witnesses' script sources *)
 Definition sub_langs (ws : list witness) : list lang := filter (fun l => mem_lang l (map w_lang ws)) all_langs.
-(* BTreeSet::append = union; iteration in the derived order *)
-Definition union_langs (a b : list lang) : list lang := filter (fun l => mem_lang l a || mem_lang l b) all_langs.
+(* used_langs.append(&mut sub.get_used_plutus_lang_versions()) for the seven sub-builders: the union of the seven
+   BTreeSets, iterated in the derived order of Language *)
 Definition used_langs (b : builder) : list lang :=
-  fold_left union_langs
-    [sub_langs (b_inputs b); sub_langs (b_collateral b); sub_langs (b_mint b); sub_langs (b_certs b);
-     sub_langs (b_withdrawals b); sub_langs (b_votes b); sub_langs (b_proposals b)] [].
+  filter (fun l => existsb (mem_lang l)
+            [sub_langs (b_inputs b); sub_langs (b_collateral b); sub_langs (b_mint b); sub_langs (b_certs b);
+             sub_langs (b_withdrawals b); sub_langs (b_votes b); sub_langs (b_proposals b)]) all_langs.
 
 (* the extra-datum step shared (textually) by calc_script_data_hash and get_witness_set *)
 Definition add_extra (datums : option plutus_list) (extra : option (list pdata)) : option plutus_list :=
